@@ -319,7 +319,7 @@ pub fn check_merge<const N: usize>(acc: &mut Acc, c: &MergeCase) -> bool {
 }
 
 fn h_id_plans(n: usize) -> Vec<Vec<usize>> {
-    vec![(0..n).collect(), (0..n).map(|i| i + 3).collect(), (0..n).rev().collect()]
+    vec![(0..n).collect(), (0..n).map(|i| i + 3).collect(), (0..n).rev().collect(), (0..n).map(|i| 40 + 7 * i).collect()]
 }
 
 /// The list of all merge cases of the tier (descriptor: indices; built lazily per index).
@@ -359,8 +359,8 @@ pub fn run_c11(tier: &str) -> Outcome {
             for (i, p) in G_PLANS.iter().enumerate() {
                 for put_first in [false, true] {
                     // the full product in quick; in thorough the big sizes get a rotating subset
-                    v.push((*p, put_first, i % 3, false));
-                    v.push((*p, put_first, (i + 1) % 3, true));
+                    v.push((*p, put_first, i % 4, false));
+                    v.push((*p, put_first, (i + 1) % 4, true));
                 }
             }
             v
@@ -416,7 +416,7 @@ pub fn run_c11(tier: &str) -> Outcome {
             machinery.push(format!("vacuous run: situation '{k}' never occurred"));
         }
     }
-    let rule = format!("every pair of labelled trees (left <= {gmax} vertices, right <= {hmax}; in the thorough tier pairs of 7 vertices get a fifth and pairs of 8 a twentieth of the variants, rotating; labels α0/x/foo, sibling labels distinct), every placement of data (distinct bytes per vertex, inline and heap; the empty datum; data that differ from the ones they overwrite only by a trailing 00 byte), 5 id assignments of the left tree (dense, reversed, gaps, new ids landing on recycled slots, left tree built on recycled slots) x put before/after bind, 3 id assignments of the right tree, the right tree with unread data and with data that was already read before the merge, every `left`, Sodg<3> and Sodg<16>; kept if the reference model says the result stays within the limits. Oracle: Ok; right graph unchanged; the graft applied to the model as add/bind/put (new ids read back from the implementation, each absent before and never returned by next_id) equals the left graph afterwards (vertices, edges); injective mapping; then every order of reads of the data-holding vertices (<= 4 holders: all permutations) compared with the model read by read (bytes and alive set). distinct_nontrivial = merge cases inside the limits");
+    let rule = format!("every pair of labelled trees (left <= {gmax} vertices, right <= {hmax}; in the thorough tier pairs of 7 vertices get a fifth and pairs of 8 a twentieth of the variants, rotating; labels α0/x/foo, sibling labels distinct), every placement of data (distinct bytes per vertex, inline and heap; the empty datum; data that differ from the ones they overwrite only by a trailing 00 byte), 5 id assignments of the left tree (dense, reversed, gaps, new ids landing on recycled slots, left tree built on recycled slots) x put before/after bind, 4 id assignments of the right tree (dense, shifted, reversed, far beyond the capacity of the left graph), the right tree with unread data and with data that was already read before the merge, every `left`, Sodg<3> and Sodg<16>; kept if the reference model says the result stays within the limits. Oracle: Ok; right graph unchanged; the graft applied to the model as add/bind/put (new ids read back from the implementation, each absent before and never returned by next_id) equals the left graph afterwards (vertices, edges); injective mapping; then every order of reads of the data-holding vertices (<= 4 holders: all permutations) compared with the model read by read (bytes and alive set). distinct_nontrivial = merge cases inside the limits");
     super::outcome("C11", tier, "exploration", &rule, acc, true, json!({"left_trees": ng, "right_trees": nh, "variants": nv}), t0.elapsed().as_secs_f64(), vec!["checked up to the choice of new ids, which the statement leaves open".to_string(), "the merge inside longer histories (C01-C03 afterwards) is additionally explored by the Merge transition of HX in the C01-C05 runs".to_string()], machinery)
 }
 
@@ -441,6 +441,10 @@ pub struct DropCase {
     pub twist: u8,
     /// node of h used as `right` (0 = the real root)
     pub right_node: usize,
+    /// the data of the tree were read before the merge, all but the last holder's (the tree is
+    /// still whole: its group keeps one unread datum)
+    #[serde(default)]
+    pub h_reads: bool,
 }
 
 pub fn check_drop(acc: &mut Acc, c: &DropCase) {
@@ -475,6 +479,23 @@ pub fn check_drop(acc: &mut Acc, c: &DropCase) {
         let _ = hg.data(40); // collects both; id 40 stays absent, `last` is re-added by the tree
     }
     crate::real::build_tree_into(&mut hg, &h, &ids);
+    if c.h_reads {
+        let holders: Vec<usize> = (0..h.size()).filter(|i| h.data[*i].is_some()).collect();
+        if holders.len() < 2 {
+            return; // same as the variant without reads
+        }
+        for i in &holders[..holders.len() - 1] {
+            if guarded(|| hg.data(ids[*i])).is_err() {
+                return;
+            }
+        }
+        let mut want = ids.clone();
+        want.sort_unstable();
+        if guarded(|| crate::real::keys_sorted(&hg)).ok() != Some(want) {
+            return; // a read collected part of the tree: C02 judges that
+        }
+        acc.bump("right_trees_holding_read_data", 1);
+    }
     let mut next = h.size() + 1;
     let mut present: BTreeSet<usize> = ids.iter().copied().collect();
     let mut first_extra = c.twist == 2;
@@ -542,6 +563,26 @@ pub fn check_drop(acc: &mut Acc, c: &DropCase) {
         Ok(Ok(())) => {
             if missed.is_empty() {
                 acc.bump("complete_merges_ok", 1);
+                // "mapped onto a vertex of the left graph": every vertex of the tree has its image,
+                // a present vertex at the end of the same labelled path from `left`
+                let keys = guarded(|| g.keys()).unwrap_or_default();
+                let mut todo = vec![(c.right_node, gids[c.left_node], String::new())];
+                while let Some((hn, gv, path)) = todo.pop() {
+                    if !keys.contains(&gv) {
+                        acc.fail("C12", "drop:ok-but-image-not-present", format!("merge() returned Ok but the vertex ν{} of the right graph (path `{path}` from `right`) was mapped onto ν{gv}, which is not present in the left graph afterwards (alive: {keys:?}) {ctx}", ids[hn]), replay.clone());
+                        break;
+                    }
+                    for (a, k) in &h.kids[hn] {
+                        match guarded(|| g.kid(gv, lab(*a))).ok().flatten() {
+                            Some(t) => todo.push((*k, t, format!("{path}.{}", lab_text(*a)))),
+                            None => {
+                                acc.fail("C12", "drop:ok-but-vertex-not-mapped", format!("merge() returned Ok but the vertex ν{} of the right graph (path `{path}.{}` from `right`) has no image in the left graph {ctx}", ids[*k], lab_text(*a)), replay.clone());
+                                todo.clear();
+                                break;
+                            }
+                        }
+                    }
+                }
             } else {
                 acc.fail("C12", "drop:ok-although-vertices-missed", format!("merge() returned Ok although the present vertices {missed:?} of the right graph cannot be reached from ν{right} and were not merged {ctx}"), replay);
             }
@@ -598,8 +639,9 @@ pub fn run_c12(tier: &str) -> Outcome {
     // the case space is a product, decoded from the index (never materialised)
     let lefts: Vec<(usize, usize)> = g_shapes.iter().enumerate().flat_map(|(gi, gs)| (0..gs.size()).map(move |l| (gi, l))).collect();
     let (nl, nh, ne) = (lefts.len(), h_trees.len(), extras.len());
-    let total = nl * nh * ne * hmax * 2 * 3;
+    let total = nl * nh * ne * hmax * 2 * 3 * 2;
     let case_at = |i: usize| -> Option<DropCase> {
+        let (h_reads, i) = (i % 2 == 1, i / 2);
         let (twist, i) = ((i % 3) as u8, i / 3);
         let (h_recycled, i) = (i % 2 == 1, i / 2);
         let (right_node, i) = (i % hmax, i / hmax);
@@ -610,7 +652,7 @@ pub fn run_c12(tier: &str) -> Outcome {
             return None;
         }
         let (gi, left_node) = lefts[li];
-        Some(DropCase { g_shape: g_shapes[gi].clone(), left_node, h_shape: hs.clone(), h_data: hd.clone(), extras: extras[ei].clone(), right_node, h_recycled, twist })
+        Some(DropCase { g_shape: g_shapes[gi].clone(), left_node, h_shape: hs.clone(), h_data: hd.clone(), extras: extras[ei].clone(), right_node, h_recycled, twist, h_reads })
     };
     let acc = super::par_cases_sliced(total, if quick { 1 } else { 8 }, |i, acc| {
         let Some(c) = case_at(i) else { return };
@@ -625,7 +667,7 @@ pub fn run_c12(tier: &str) -> Outcome {
             machinery.push(format!("vacuous run: situation '{k}' never occurred"));
         }
     }
-    let rule = format!("every right graph = labelled tree of <= {hmax} vertices (every data placement) + every combination of up to 3 extras out of {{isolated vertex, isolated vertex with data, isolated vertex whose data was read, detached 2-vertex subtree}}, the tree built on fresh slots and on a slot recycled from a collected vertex, `left` empty or already holding the bytes the root brings (a retried merge), an extra vertex on id 0, `right` = every node of the tree (so also roots that are not the graph's root), every left tree of <= {gmax} vertices and every `left`. Oracle: Ok iff the reference says every present vertex of the right graph is reachable from `right`; otherwise Err whose text names exactly the unreachable present vertices. distinct_nontrivial = distinct (left, right graph, left, right) cases");
+    let rule = format!("every right graph = labelled tree of <= {hmax} vertices (every data placement) + every combination of up to 3 extras out of {{isolated vertex, isolated vertex with data, isolated vertex whose data was read, detached 2-vertex subtree}}, the tree built on fresh slots and on a slot recycled from a collected vertex, `left` empty or already holding the bytes the root brings (a retried merge), an extra vertex on id 0, the tree's data unread or read before the merge (all but one), `right` = every node of the tree (so also roots that are not the graph's root), every left tree of <= {gmax} vertices and every `left`. Oracle: Ok iff the reference says every present vertex of the right graph is reachable from `right`, and then every vertex of the tree has a present image at the end of the same labelled path from `left`; otherwise Err whose text names exactly the unreachable present vertices. distinct_nontrivial = distinct (left, right graph, left, right) cases");
     super::outcome("C12", tier, "exploration", &rule, acc, true, json!({}), t0.elapsed().as_secs_f64(), vec!["the missed vertices are read from the ν<id> tokens after the word 'missed' in the error text; without such tokens the check only demands that every missed id occurs in the message".to_string()], machinery)
 }
 
